@@ -23,7 +23,7 @@
 From Coq Require Import Reals ZArith List Bool Lra Lia Sorted Permutation.
 From Flocq Require Import Core.Raux.
 From Romea Require Import Num NumR RansacModel IcpModel RansacProofs EstimateProofs RigidProofs IcpProofs RansacProbability.
-From Romea Require Import LinAlgBModel LinAlgBProofs LsModel LsProofs LsHistoryProofs P2pModel P2pProofs ZeroDispProofs.
+From Romea Require Import LinAlgBModel LinAlgBProofs LsModel LsProofs LsHistoryProofs P2pModel P2pProofs ZeroDispProofs ZeroDispRansac.
 From Romea Require Import SrcTieC06.
 From Romea.gen Require Import RepoConstants SrcRansac.
 Import ListNotations.
@@ -422,6 +422,61 @@ Proof.
     apply Rmult_lt_0_compat; [apply IZR_lt; reflexivity | apply powerRZ_lt; lra].
   - vm_compute. discriminate.
 Qed.
+
+(* ------------------------------------------------------------------------------------------------ zero displacement: RANSAC *)
+(* The RANSAC rigid-motion model at zero displacement.  [pair_zero]: the correspondence pairs a target point with an
+   identical source point (dim stored coordinates, + 1 for homogeneous types).  With the identity as drawn candidate (what
+   the estimator returns on any sample of such pairs, C06_zero_displacement_estimate_identity): every residual is 0, the
+   consensus countInliers builds has as many entries as there are correspondences, all with residual 0, its rmse is 0,
+   check_ accepts the sample, and countInliers returns the number of correspondences (fresh object: stores the
+   consensus; an object that already holds it: unchanged). *)
+Theorem C06_zero_displacement_rigid_consensus : forall hom dim src tgt (sigma : R) sorted sample mininl,
+  (dim = 2 \/ dim = 3)%nat -> (0 < sigma)%R ->
+  Forall (pair_zero hom dim src tgt) sorted -> Forall (pair_zero hom dim src tgt) sample ->
+  let Id := midentity ROps (S dim) in
+  let cs := consensus ROps hom dim Id src tgt sigma sorted in
+  (forall c, In c sorted -> residual ROps hom dim Id src tgt c = 0%R) /\
+  length cs = length sorted /\ Forall (fun c => c_sq c = 0%R) cs /\ rmse_of ROps cs = 0%R /\
+  check_sample ROps hom dim Id src tgt sigma sample = true /\
+  ((1 <= mininl <= Z.of_nat (length sorted))%Z ->
+   let r := rigid_count ROps hom dim mininl src tgt sigma sorted Id (rigid_init ROps) in
+   snd r = Z.of_nat (length sorted) /\ rs_best (fst r) = cs /\ rs_rmse (fst r) = 0%R).
+Proof.
+  intros hom dim src tgt sigma sorted sample mininl Hd Hs Hz Hsm Id cs.
+  destruct (consensus_all hom dim src tgt sigma Hd Hs sorted Hz) as (A & B & C). cbv zeta in A, B, C.
+  split; [intros c Hc; apply residual_zero; [exact Hd | rewrite Forall_forall in Hz; now apply Hz]|].
+  split; [exact A|]. split; [eapply Forall_impl; [|exact B]; intros c [E _]; exact E|]. split; [exact C|].
+  split; [now apply check_sample_zero|].
+  intros Hm r.
+  destruct (rigid_count_zero hom dim src tgt sigma Hd Hs mininl sorted (rigid_init ROps) Hz Hm (or_introl eq_refl)) as (X1 & _ & X3 & X4 & _).
+  split; [exact X1|]. split; [now apply X4 | exact X3].
+Qed.
+Print Assumptions C06_zero_displacement_rigid_consensus.
+
+(* ... and driven by Ransac::estimateModel (the model the source tie above is about): if every drawn candidate is the
+   identity and every sample consists of such pairs, with at least the minimal number of correspondences (2 x draw size)
+   and fewer than 2^24, estimateModel returns TRUE whatever the number of further draws; the reported consensus error is 0,
+   the consensus has the size of the correspondence list and is what refine() hands to the estimator — whose answer is
+   again the identity (C06_zero_displacement_estimate_identity), which the ICP loop then returns at its first iteration
+   (C06_zero_displacement_icp_identity).  What stays outside: that the kd-tree pairs every point with itself (C08). *)
+Theorem C06_zero_displacement_ransac_succeeds : forall hom dim src tgt (sigma : R) corrs npoints p maxit sample script,
+  (dim = 2 \/ dim = 3)%nat -> (0 < sigma)%R ->
+  Forall (pair_zero hom dim src tgt) corrs -> Forall (pair_zero hom dim src tgt) sample ->
+  Forall (fun e : list (list R) * list (corr R) => fst e = midentity ROps (S dim) /\ Forall (pair_zero hom dim src tgt) (snd e)) script ->
+  (rigid_min_inliers (Z.of_nat dim) <= npoints)%Z ->
+  (rigid_min_inliers (Z.of_nat dim) <= Z.of_nat (length corrs) < 2 ^ 24)%Z -> (1 <= maxit)%Z ->
+  exists r, estimate_rigid ROps hom dim src tgt sigma corrs npoints p maxit ((midentity ROps (S dim), sample) :: script) = Some r /\
+    er_ok r = true /\ rs_rmse (ro_st (er_state r)) = 0%R /\
+    length (rs_best (ro_st (er_state r))) = length corrs /\
+    ro_refit (er_state r) = Some (rs_best (ro_st (er_state r))).
+Proof. intros hom dim src tgt sigma corrs npoints p maxit sample script Hd Hs. now apply zero_disp_ransac_succeeds. Qed.
+Print Assumptions C06_zero_displacement_ransac_succeeds.
+
+Example C06_zero_displacement_ransac_example :
+  let pts := [[0; 0]; [1; 0]; [0; 1]; [1; 1]; [2; 0]; [0; 2]]%R in
+  let corrs := map (fun i => mkCorr i i 0%R) [0; 1; 2; 3; 4; 5]%Z in
+  Forall (pair_zero false 2 pts pts) corrs /\ (rigid_min_inliers 2 <= Z.of_nat (length corrs) < 2 ^ 24)%Z.
+Proof. cbv zeta. split; [repeat constructor | vm_compute; split; [discriminate | reflexivity]]. Qed.
 
 (* ------------------------------------------------------------------------------------------------ SOURCE TIE (syntactic) *)
 (* coq/gen/SrcRansac.v is regenerated on every run by translate/tr_C06_ransac.py from the clang AST of
